@@ -182,6 +182,9 @@ def run_property(pid: str, tier: str, seed: int) -> int:
 
     # ---------------- counterexamples: replay on the real code
     os.makedirs(os.path.join(VERIF, "replays", pid), exist_ok=True)
+    for old in os.listdir(os.path.join(VERIF, "replays", pid)):  # replay files of earlier runs
+        if old.endswith(".json"):
+            os.remove(os.path.join(VERIF, "replays", pid, old))
     # group the refuted obligations (same obligation on different paths); replay up to 6 members of a group until one
     # reproduces on the real code; one VIOLATION line per group
     groups = {}
